@@ -207,3 +207,7 @@ mod tests {
         )
     }
 }
+
+#[cfg(kani)]
+#[path = "/verif/hooks/vtx/player.rs"]
+mod verif_hooks;
